@@ -83,6 +83,9 @@ def cases(draw):
                      # link_options, its consumers must get the option
                      'mopt': draw(st.integers(0, 1 if kind == 'dual'
                                               else 7)) == 0,
+                     # a two-word link option every consumer must get whole
+                     # (`-u <symbol>`: keep an otherwise unreferenced member)
+                     'uopt': kind == 'static' and draw(st.booleans()),
                      'whole': [d for d in deps if libs[d]['kind'] == 'static'
                                and draw(st.integers(0, 5)) == 0]})
     exes = []
@@ -174,8 +177,10 @@ def render(case, src):
         extra = ''
         if lib['kind'] == 'versioned':
             extra = ", version='1.2.3', soversion='1'"
-        if lib.get('mopt'):
-            extra += ", link_options=['-Wl,--no-as-needed', '-lm']"
+        lo = (['-Wl,--no-as-needed', '-lm'] if lib.get('mopt') else []) + \
+            (['-u', 'w_{}'.format(i)] if lib.get('uopt') else [])
+        if lo:
+            extra += ", link_options={!r}".format(lo)
         L.append("v{0} = {1}({2!r}, ['l{0}.c', 'l{0}_b.c', 'l{0}_w.c']{3}{4})"
                  .format(
             i, fn, name, ', libs=[{}]'.format(deps) if deps else '', extra))
@@ -217,6 +222,8 @@ def prop_link(rec):
             labs.add('two-whole-archives-in-one-link')
         if any(l.get('mopt') for l in libs):
             labs.add('library-link-option')
+        if sum(1 for l in libs if l.get('uopt')) >= 2:
+            labs.add('two-word-link-options-from-several-libraries')
         rec.case(labs, nontrivial=(shape(case) if static_with_deps and
                                    len(dirs) >= 2 else None), sample=case)
         with sandbox.scratch('c14') as tmp:
